@@ -280,13 +280,13 @@ impl WaitingForRxWindow {
                                 let time_between_windows =
                                     mac.get_rx_delay(&self.frame, &Window::_2) - window_start;
                                 if time_between_windows > radio.get_rx_window_duration_ms() {
-                                    time + radio.get_rx_window_duration_ms()
+                                    time.wrapping_add(radio.get_rx_window_duration_ms())
                                 } else {
-                                    time + time_between_windows
+                                    time.wrapping_add(time_between_windows)
                                 }
                             }
                             // RxWindow2 can last however long
-                            Rx::_2(time) => time + radio.get_rx_window_duration_ms(),
+                            Rx::_2(time) => time.wrapping_add(radio.get_rx_window_duration_ms()),
                         };
                         (
                             State::WaitingForRx(WaitingForRx {
@@ -374,7 +374,7 @@ impl WaitingForRx {
                     Rx::_1(t1) => {
                         let time_between_windows = mac.get_rx_delay(&self.frame, &Window::_2)
                             - mac.get_rx_delay(&self.frame, &Window::_1);
-                        let t2 = t1 + time_between_windows;
+                        let t2 = t1.wrapping_add(time_between_windows);
                         // TODO: jump to RxWindow2 if t2 == now
                         (
                             State::WaitingForRxWindow(WaitingForRxWindow {
@@ -416,7 +416,8 @@ fn data_rxwindow1_timeout<R: radio::PhyRxTx + Timings, const N: usize>(
     timestamp_ms: u32,
 ) -> (State, Result<Response, super::Error<R>>) {
     let delay = mac.get_rx_delay(&frame, &Window::_1);
-    let t1 = (delay as i32 + timestamp_ms as i32 + radio.get_rx_window_offset_ms()) as u32;
+    // the board's millisecond clock is a u32 that wraps: so do the instants derived from it
+    let t1 = timestamp_ms.wrapping_add(delay).wrapping_add_signed(radio.get_rx_window_offset_ms());
     (
         State::WaitingForRxWindow(WaitingForRxWindow { frame, rx_windows, window: Rx::_1(t1) }),
         Ok(Response::TimeoutRequest(t1)),
